@@ -947,7 +947,14 @@ def k11_input_gate(core, rep):
             pv = core.method('InputStore', 'provides')
             has = [x for x in calls_in(pv.node) if call_name(x) == 'has_option' and attr_text(x.func.value) == 'self.config']
             p_param = pv.node.args.args[1].arg
-            same = len(has) == 1 and [unparse(a).replace(p_param, spec) for a in has[0].args] == [unparse(a) for a in c.args[:2]]
+            def _thru(fnode, e):
+                # a local that is assigned once stands for what it was assigned (`section = input_obj.section()`)
+                if isinstance(e, ast.Name):
+                    d_ = [m.value for m in ast.walk(fnode) if isinstance(m, ast.Assign) and len(m.targets) == 1 and isinstance(m.targets[0], ast.Name) and m.targets[0].id == e.id]
+                    if len(d_) == 1:
+                        return d_[0]
+                return e
+            same = len(has) == 1 and [unparse(_thru(pv.node, a)).replace(p_param, spec) for a in has[0].args] == [unparse(_thru(f.node, a)) for a in c.args[:2]]
             rep.ob('K11e', 'supplied-iff-found', same, 'provides() and the read address the configuration with different (section, option) expressions: a supplied input could be reported missing', _w(pv))
     # K11b sole access path to the raw configuration
     for rel, n in core.all_nodes(ast.Attribute):
@@ -1211,6 +1218,11 @@ def k19_writeback_finally(core, rep):
             if isinstance(n, ast.If):
                 conds.append(unparse(n.test))
             n = getattr(n, 'parent', None)
+        flag_locals = {m.targets[0].id for m in ast.walk(f.node) if isinstance(m, ast.Assign) and len(m.targets) == 1 and isinstance(m.targets[0], ast.Name)
+                       and unparse(m.value) == 'args.writeback_input'
+                       and sum(1 for m2 in ast.walk(f.node) if isinstance(m2, (ast.Assign, ast.AugAssign)) and any(isinstance(t_, ast.Name) and t_.id == m.targets[0].id
+                               for t_ in (m2.targets if isinstance(m2, ast.Assign) else [m2.target]))) == 1}
+        conds = ['args.writeback_input' if c_ in flag_locals else c_ for c_ in conds]      # a local assigned once from the switch stands for it
         rep.ob('K19', 'write-back-unconditional-but-for-the-flag', conds == ['args.writeback_input'],
                f'the write-back is guarded by {conds}; it must depend on --writeback-input only (not on success)', _w(f, w))
         # nothing the finally block looks at before the write may be bound only inside the try body: when solve() raised, such
